@@ -17,6 +17,9 @@ type Params struct {
 	MaxParents  int
 	MaxChildren int
 	MaxVers     int
+	// Polygon forces a multipolygon/boundary relation whose members are mostly ways with located
+	// nodes (arcs of one ring) in outer/inner roles: the orientation annotation path.
+	Polygon bool
 }
 
 // Thresholds are the grouping thresholds the workloads use.
@@ -45,6 +48,11 @@ func Generate(r *gen.R, p Params) *H {
 	}
 	if !p.Way && r.Chance(0.12) {
 		h.Polygon = true
+	}
+	if p.Polygon {
+		h.Way, h.Polygon, h.Ring = false, true, true
+		h.Boundary = r.Chance(0.3)
+		p.Way = false
 	}
 	if r.Chance(0.3) {
 		h.Shuffle = r.Uint64() | 1
@@ -149,10 +157,10 @@ func Generate(r *gen.R, p Params) *H {
 	for c := 0; c < nc; c++ {
 		ch := Child{Type: osm.TypeNode, Ref: int64(10 + c)}
 		if !p.Way {
-			switch r.Intn(4) {
-			case 0:
+			switch k := r.Intn(4); {
+			case k == 0 || (p.Polygon && r.Chance(0.8)):
 				ch.Type = osm.TypeWay
-			case 1:
+			case k == 1:
 				ch.Type = osm.TypeRelation
 			}
 			// equal refs with different types are distinct features
@@ -212,6 +220,9 @@ func Generate(r *gen.R, p Params) *H {
 		if !p.Way {
 			for j := range pv.Refs {
 				pv.Refs[j].Role = roles[r.Intn(len(roles))]
+				if p.Polygon && r.Chance(0.85) {
+					pv.Refs[j].Role = roles[1+r.Intn(2)]
+				}
 			}
 		}
 	}
@@ -470,5 +481,77 @@ func BurstZ(way bool, regime Regime, n, nIdx int, zones bool) *H {
 		p.Refs = append(p.Refs, Ref{Child: 0})
 	}
 	h.Parents = []PVer{p}
+	return h
+}
+
+// Big returns a history whose first parent version receives about target updates (100-2000):
+// shape "children" = many children with many later versions each; shape "indexes" = one to
+// three children that each sit at many indexes. Later versions come two or three to a second,
+// in mixed time zones; everything is visible and consistent, so the run succeeds.
+func Big(r *gen.R, way bool, regime Regime, shape string, target int) *H {
+	h := &H{Way: way, Regime: regime, Eps: Thresholds[r.Intn(len(Thresholds))]}
+	T := int64(1400000000) + r.Int64Range(0, 1e7)
+	if regime == Stamp {
+		T = 1250000000 + r.Int64Range(0, 1e7)
+	}
+	E := h.Eps
+	var nc, occ, nv int
+	switch shape {
+	case "indexes":
+		nc = r.Range(1, 3)
+		occ = r.Range(10, 60)
+		nv = target/(nc*occ) + 1
+	default:
+		nc = r.Range(9, 40)
+		occ = 1
+		nv = target/nc + 1
+	}
+	if nv < 2 {
+		nv = 2
+	}
+	zone := func() int {
+		if r.Chance(0.5) {
+			return 0
+		}
+		return r.Intn(len(Zones))
+	}
+	p := PVer{Version: 1, Visible: true, Sec: T, CS: 55, Zone: zone()}
+	cs := int64(1000)
+	for c := 0; c < nc; c++ {
+		ch := Child{Type: osm.TypeNode, Ref: int64(10 + c)}
+		if !way {
+			ch.Type = []osm.Type{osm.TypeNode, osm.TypeWay, osm.TypeRelation}[r.Intn(3)]
+		}
+		sec := T - 2*E - r.Int64Range(10, 100000)
+		for v := 1; v <= nv+1; v++ {
+			cs++
+			nv := Ver{Version: v, Visible: true, Sec: sec, CS: cs, Zone: zone()}
+			if regime == Commit {
+				nv.Lag = r.Int64Range(0, 60)
+			}
+			if ch.Type == osm.TypeNode {
+				nv.Lat = float64(c+1) + float64(v)/10000
+				nv.Lon = -float64(c+1) - float64(v)/10000
+			}
+			ch.Vers = append(ch.Vers, nv)
+			switch {
+			case v == 1:
+				sec = T + E + r.Int64Range(1, 500)
+			case r.Chance(0.55): // next version in the same second
+			default:
+				sec += r.Int64Range(1, 40)
+			}
+		}
+		h.Children = append(h.Children, ch)
+		for k := 0; k < occ; k++ {
+			p.Refs = append(p.Refs, Ref{Child: c})
+		}
+	}
+	r.Shuffle(len(p.Refs), func(a, b int) { p.Refs[a], p.Refs[b] = p.Refs[b], p.Refs[a] })
+	h.Parents = []PVer{p}
+	if r.Chance(0.4) { // a second parent version long after every child edit
+		p2 := PVer{Version: 2, Visible: true, Sec: T + 100000000, CS: 56, Refs: append([]Ref(nil), p.Refs[:len(p.Refs)/2+1]...)}
+		h.Parents = append(h.Parents, p2)
+	}
 	return h
 }
